@@ -136,6 +136,10 @@ class PolygonPixelRegion(PixelRegion):
         bbox = self.bounding_box
         ny, nx = bbox.shape
 
+        if nx == 0 or ny == 0:
+            # degenerate polygon whose bounding box contains no pixels
+            return RegionMask(np.zeros((ny, nx)), bbox=bbox)
+
         # Find position of pixel edges and recenter so that circle is at
         # origin
         xmin = float(bbox.ixmin) - 0.5
